@@ -351,7 +351,10 @@ impl Gen7 {
     }
     pub fn update(&mut self, depth: u32) -> Update {
         let t = self.rng.pick(&TABLES).clone();
-        let rel = Self::table_rel(&t);
+        let mut rel = Self::table_rel(&t);
+        // the updated table under an alias (then only the alias is in scope)
+        let alias = if self.rng.chance(1, 3) { Some("tg".to_string()) } else { None };
+        if let Some(x) = &alias { rel.alias = x.clone(); }
         let mut rels = vec![rel.clone()];
         let mut from = vec![];
         if self.rng.chance(1, 4) { let (f, r) = self.from_item(depth.min(1)); from.push(f); rels.push(r); }
@@ -359,13 +362,13 @@ impl Gen7 {
         let sets = (0..n).map(|_| { let (c, ty) = *self.rng.pick(&t.cols[1..]); (c.to_string(), self.scalar(&rels, ty, depth.min(2), false)) }).collect();
         let mut wher = self.holder(&rels, depth.min(2), 8);
         if !from.is_empty() { // keep UPDATE .. FROM deterministic: join on a key of the second relation
-            let k = bin(col(t.name, "id"), 10, self.pick_col(&rels[1..], Some('i')).0);
+            let k = bin(col(&rel.alias, "id"), 10, self.pick_col(&rels[1..], Some('i')).0);
             wher = Holder::Cond(Cond { neg: false, any: false, items: vec![Item::E(k), Item::E(bin(ival(1), 10, ival(1)))] });
             if self.rng.chance(1, 2) { if let Holder::Cond(c) = &mut wher { c.items[1] = Item::E(self.pred(&rels, 1, false)); } }
         }
         let limited = from.is_empty() && self.rng.chance(1, 3);
         let orders = if limited || (from.is_empty() && self.rng.chance(1, 6)) { let k = self.pick_col(&[rel.clone()], None); self.order(vec![k], Some(Ex::Col(ColRef::Col("id".into())))) } else { vec![] };
-        Update { with: None, table: Some(TRef::Named(TName { parts: vec![t.name.into()], alias: None })), sets, wher, orders, limit: if limited { Some(self.rng.below(4)) } else { None }, returning: self.returning(&t), from }
+        Update { with: None, table: Some(TRef::Named(TName { parts: vec![t.name.into()], alias })), sets, wher, orders, limit: if limited { Some(self.rng.below(4)) } else { None }, returning: self.returning(&t), from }
     }
     pub fn delete(&mut self, depth: u32) -> Delete {
         let t = self.rng.pick(&TABLES).clone();
